@@ -560,6 +560,27 @@ def sched_stage(prop, P, tags, tier, seed, replay, wdir, S, F):
                 samples.append([l for l in cl if not l.startswith("pre ")][:6] + [norm(l) for l in il if l.startswith(("ev", "res", "hang", "crash"))][:8])
     return mism, mon, n_cases, n_lines, n_events, classes, samples, feat
 
+def traits_stage():
+    """C12, static part: which public types the compiler lets cross / be shared between threads on the current tree
+    (`seq traits`). Everything that embeds or borrows the single-threaded arena (plain reference counter, plain cursor)
+    and every handle that owns a payload which is not thread-safe must stay on its thread: otherwise safe code can
+    race on them."""
+    p = vlib.run([os.path.join(vlib.TARGET, "release", "seq"), "traits"], timeout=60)
+    rows, out = {}, []
+    for l in p.stdout.splitlines():
+        o = vlib.parse_obs(l)
+        if "type" in o: rows[o["type"]] = (o.get("send"), o.get("sync"))
+    if not rows:
+        return [("C12", "traits-unavailable", "`seq traits` printed nothing")], rows
+    for ty, (sd, sy) in sorted(rows.items()):
+        if "unsync" in ty and (sd, sy) != ("0", "0"):
+            out.append(("C12", "unsync-type-crosses-threads", f"{ty} is {'Send' if sd == '1' else ''}{' Sync' if sy == '1' else ''}: a value tied to the single-threaded arena (plain counters) can be used from two threads by safe code"))
+        if "local" in ty and (sd, sy) != ("0", "0"):
+            out.append(("C12", "payload-crosses-threads", f"{ty} is {'Send' if sd == '1' else ''}{' Sync' if sy == '1' else ''} although its payload type is neither: safe code can race on the payload through the handle"))
+    if rows.get("sync::Arena") != ("1", "1"):
+        out.append(("C12", "sync-arena-not-shareable", f"sync::Arena is no longer Send + Sync: {rows.get('sync::Arena')}"))
+    return out, rows
+
 def check(prop, tier, seed, replay, t0, chk):
     P = SPROPS[prop]
     tags = P["tags"] | {prop}
@@ -580,7 +601,16 @@ def check(prop, tier, seed, replay, t0, chk):
         print(f"VIOLATION property={prop} replay={rp} no-failing-input-found")
         chk.finish(prop, tier, seed, pinfo, {}, t0, 1, [], 0, 0, 0, set())
         return 1
-    mism, mon, n_cases, n_lines, n_events, classes, samples, feat = sched_stage(prop, P, tags, tier, seed, replay, wdir, S, F)
+    traits_only = bool(replay) and any(l.strip() == "traits" for l in open(replay))
+    if traits_only:
+        mism, mon, n_cases, n_lines, n_events, classes, samples, feat = [], [], 0, 0, 0, set(), [], {}
+    else:
+        mism, mon, n_cases, n_lines, n_events, classes, samples, feat = sched_stage(prop, P, tags, tier, seed, replay, wdir, S, F)
+    if prop == "C12" and (traits_only or not replay):
+        tv, trows = traits_stage()
+        feat["auto-trait rows"] = len(trows)
+        for v in tv:
+            mon.append((None, 0, ["traits"], v))
     known = [k for k in vlib.load_known() if k["property"] == prop]
     kn = {kf["sig"] for kf in known}
     if (mism or not pinfo["proof_ok"]) and not [v for (_, _, _, v) in mon if v[1] not in kn] and tier == "quick" and not replay:
